@@ -462,6 +462,15 @@ impl<'tcx> Cx<'tcx> {
         o.push(("def_kind", s(format!("{:?}", tcx.def_kind(did)))));
         o.push(("span", self.line(body.span)));
         o.push(("arg_count", J::Int(body.arg_count as i128)));
+        // names of all generic parameters (parents' first), in the order of the callee's generic arguments at a call site
+        {
+            let g = tcx.generics_of(did);
+            let mut names: Vec<J> = Vec::new();
+            for i in 0..g.count() {
+                names.push(s(g.param_at(i, tcx).name.to_string()));
+            }
+            o.push(("generic_names", J::Arr(names)));
+        }
         // parent impl / trait
         let parent = tcx.opt_parent(did);
         if let Some(p) = parent {
@@ -782,7 +791,11 @@ impl<'tcx> Cx<'tcx> {
                             ("has_default", J::Bool(it.defaultness(tcx).has_value())),
                         ]));
                     }
-                    traits.push(J::Obj(vec![("path", s(self.path(did))), ("items", J::Arr(items))]));
+                    traits.push(J::Obj(vec![
+                        ("path", s(self.path(did))),
+                        ("reachable", J::Bool(tcx.effective_visibilities(()).is_reachable(id.owner_id.def_id))),
+                        ("items", J::Arr(items)),
+                    ]));
                 }
                 _ => {}
             }
